@@ -302,6 +302,7 @@ func c11Batch(c *fw.Ctx, r *rand.Rand, id string, T int) {
 		if !waitOrTimeout(done, 120*time.Second) {
 			close(stopReaders)
 			c.Violate(fw.Violation{Key: "blocked", What: "concurrent evaluations did not finish within 120 s", Detail: fw.GoroutineDump()})
+			c.Runaway()
 			return
 		}
 		close(stopReaders)
